@@ -721,9 +721,12 @@ def _direct_refs(e, env):
         if b is None:
             return _direct_refs(e.value, env)
         v = env.get(b)
-        if isinstance(e, ast.Attribute) and isinstance(e.value, ast.Name) and e.attr in _ARR_META \
+        inner = e
+        while isinstance(inner, (ast.Attribute, ast.Subscript)) and not isinstance(inner.value, ast.Name):
+            inner = inner.value
+        if isinstance(inner, ast.Attribute) and isinstance(inner.value, ast.Name) and inner.attr in _ARR_META \
                 and isinstance(v, (Arr, Vec)):
-            return set()
+            return set()               # img.shape, img.shape[1], img.dtype.kind: metadata, not the data
         if isinstance(e, ast.Subscript) and isinstance(e.value, ast.Name) and isinstance(v, (Vec, Seq, PyTuple)):
             i = e.slice
             if isinstance(i, ast.UnaryOp) and isinstance(i.op, ast.USub):
@@ -3164,6 +3167,24 @@ SPECS_C13 = [
          fallback='(minwave, maxwave, ' + _CEILD.format(a='maxwave - minwave', d='dwave') + ' + 1)'),
 ]
 
+# ---------------------------------------------------------------------- C19: the frequency axes of the blur kernels
+CNV = 'lentil/convolvable.py'
+_DETP = 'lentil/detector.py'
+_FREQ = dict(observe_calls={'FREQ': 'np.fft.fftfreq'}, observe='(FREQ_0[0], FREQ_1[0])', rtype=TZn(2),
+             fallback='(snd img_shape, fst img_shape)')
+SPECS_C19 = [
+    dict(_FREQ, name='pixel_freq_sizes', file=_DETP, func='pixel', params={'img': ARR(2), 'oversample': OPAQUE_K},
+         doc='detector.pixel(img, oversample) for a 2-d img: the lengths handed to the two np.fft.fftfreq calls, in '
+             'order (x first: the COLUMN count, then y: the ROW count)'),
+    dict(_FREQ, name='jitter_freq_sizes', file=CNV, func='jitter',
+         params={'img': ARR(2), 'scale': OPAQUE_K, 'pixelscale': OPAQUE_K, 'oversample': OPAQUE_K},
+         doc='jitter(img, scale, pixelscale, oversample): the lengths handed to the two np.fft.fftfreq calls (x, y)'),
+    dict(_FREQ, name='smear_freq_sizes', file=CNV, func='smear',
+         params={'img': ARR(2), 'distance': OPAQUE_K, 'angle': OPAQUE_K, 'pixelscale': OPAQUE_K,
+                 'oversample': OPAQUE_K},
+         doc='smear(img, distance, angle, pixelscale, oversample): the lengths handed to the two np.fft.fftfreq calls'),
+]
+
 # ---------------------------------------------------------------------- C17: lentil/util.py rescale
 _RSC_PARAMS = {'img': ARR(2), 'scale': Q_K, 'shape': NONE_K, 'mask': OPAQUE_K, 'order': OPAQUE_K, 'mode': OPAQUE_K,
                'unitary': OPAQUE_K}
@@ -3251,6 +3272,8 @@ SUITES = {
             'proofs': 'theories/Proofs/SpectrumSrcP.v', 'target': 'theories/Properties/C15Src.vo', 'props': 'C15Src'},
     'C13': {'specs': SPECS_C13, 'gen': 'theories/Gen/SpectrumOpSrc.v', 'imports': 'Lib.Base',
             'proofs': 'theories/Proofs/SpectrumOpSrcP.v', 'target': 'theories/Properties/C13Src.vo', 'props': 'C13Src'},
+    'C19': {'specs': SPECS_C19, 'gen': 'theories/Gen/BlurSrc.v', 'imports': 'Lib.Base',
+            'proofs': 'theories/Proofs/BlurSrcP.v', 'target': 'theories/Properties/C19Src.vo', 'props': 'C19Src'},
     'C17': {'specs': SPECS_C17, 'gen': 'theories/Gen/RescaleSrc.v', 'imports': 'Lib.Base',
             'proofs': 'theories/Proofs/RescaleSrcP.v', 'target': 'theories/Properties/C17Src.vo', 'props': 'C17Src'},
     'C20': {'specs': SPECS_C20, 'gen': 'theories/Gen/GeometrySrc.v', 'imports': 'Model.Geometry Model.Shapes',
@@ -3617,10 +3640,23 @@ def find_witness(name, info, pyfunc, rng, exhaustive_budget=120000, n_random=400
                 continue
         if a != b:
             w = {'args': args, 'source': a, 'model': b}
-            if _valid_pref(name, args):
+            visible = True                 # does the difference show in what the running code exposes?
+            if name in PROJECT or name in PROJECT2:
+                try:
+                    pa_, pb_ = a, b
+                    if name in PROJECT:
+                        pa_, pb_ = PROJECT[name](pa_), PROJECT[name](pb_)
+                    if name in PROJECT2:
+                        pa_, pb_ = PROJECT2[name](pa_, args), PROJECT2[name](pb_, args)
+                    visible = pa_ != pb_
+                except Exception:      # noqa: BLE001
+                    visible = False
+            if visible and _valid_pref(name, args):
                 return w, desc
-            if fallback is None:
-                fallback = w
+            if fallback is None or (visible and not fallback.get('_visible')):
+                fallback = dict(w, _visible=visible)
+    if fallback is not None:
+        fallback.pop('_visible', None)
     return fallback, f'{n} points: 3000 sampled like the self-check, then {desc}'
 
 
@@ -3643,6 +3679,8 @@ def selfcheck(name, info, pyfunc, lentil, rng, n=160):
         want = pyfunc(*args)
         if name in PROJECT:            # the running code exposes only part of the translated value
             want = PROJECT[name](want)
+        if name in PROJECT2:           # ... or its effect on the arguments
+            want = PROJECT2[name](want, args)
         if name in CANON:
             want = CANON[name](want)
         if got != want:
@@ -4357,6 +4395,141 @@ PREF.update({'pad_linspace': lambda e, d, w0, wl: _int_grid(w0, wl, d) is not No
              'common_grid_linspace': lambda mn, mx, d: _int_grid(mn, mx, d) is not None})
 
 
+# ====================================================================== C20: window(slice), helper.mesh
+PROJECT2 = {}
+
+
+def _m_window(size, shape, sl):
+    s0, s1, s2, s3 = sl
+    if size == 1:
+        return ('ok', None)
+    if shape is not None:
+        if s1 - s0 != shape[0] or s3 - s2 != shape[1]:
+            return ('err', 'AssertionErr')
+    return ('ok', ((s0, s1), (s2, s3)))
+
+
+def _prod(t):
+    out = 1
+    for v in t:
+        out *= v
+    return out
+
+
+MIRROR.update({
+    'window_slice': lambda ish, shape, sl: _m_window(_prod(ish), shape, sl),
+    'window_slice_noshape': lambda ish, sl: _m_window(_prod(ish), None, sl)[1],
+    'window_slice_cube': lambda ish, shape, sl: _m_window(_prod(ish), shape, sl),
+    'mesh_origin': lambda shape, shift, i, j: (i - shape[0] // 2 - shift[0], j - shape[1] // 2 - shift[1]),
+})
+
+
+def _window_base(ish):
+    import numpy as np
+    return np.arange(_prod(ish)).reshape(ish)
+
+
+def _drv_window(with_shape):
+    def drv(L, ish, *rest):
+        shape, sl = (rest if with_shape else (None, rest[0]))
+        if min(ish) < 1 or max(ish) > 9 or max(abs(v) for v in sl) > 40:
+            return SKIP
+        try:
+            r = L.util.window(_window_base(ish), None if shape is None else tuple(shape), tuple(sl))
+        except AssertionError:
+            return ('err', 'AssertionErr')
+        v = r.tolist()
+        return ('ok', v) if with_shape else v
+    return drv
+
+
+def _proj_window(with_shape):
+    def proj(want, args):
+        ish, sl = args[0], args[-1]
+        w = want[1] if with_shape else want
+        if with_shape and want[0] == 'err':
+            return want
+        base = _window_base(ish)
+        v = base.tolist() if w is None else base[..., w[0][0]:w[0][1], w[1][0]:w[1][1]].tolist()
+        return ('ok', v) if with_shape else v
+    return proj
+
+
+def _drv_mesh(L, shape, shift, i, j):
+    if not (1 <= min(shape) and max(shape) <= 12 and 0 <= i < shape[0] and 0 <= j < shape[1]):
+        return SKIP
+    loc, r = _trace_locals(L.helper.mesh, 'mesh', 'lentil/helper.py', tuple(shape), tuple(shift), 0)
+    if loc is None or 'rr' not in loc:
+        return SKIP
+    return (_intlike(loc['rr'][i, j]), _intlike(loc['cc'][i, j]))
+
+
+DRIVER.update({'window_slice': _drv_window(True), 'window_slice_noshape': _drv_window(False),
+               'window_slice_cube': _drv_window(True), 'mesh_origin': _drv_mesh})
+PROJECT2.update({'window_slice': _proj_window(True), 'window_slice_noshape': _proj_window(False),
+                 'window_slice_cube': _proj_window(True)})
+
+
+def _s_window(rng, nd=2, with_shape=True):
+    ish = tuple(rng.randint(1, 6) for _ in range(nd))
+    if rng.random() < 0.12:
+        ish = (1,) * nd
+    n, m = ish[-2], ish[-1]
+    s0, s2 = rng.randint(-2, n), rng.randint(-2, m)
+    sl = (s0, s0 + rng.randint(0, n), s2, s2 + rng.randint(0, m))
+    if not with_shape:
+        return (ish, sl)
+    shape = (sl[1] - sl[0], sl[3] - sl[2])
+    if rng.random() < 0.25:
+        shape = (shape[0] + rng.randint(-1, 1), shape[1] + rng.randint(-1, 1))
+    return (ish, shape, sl)
+
+
+def _s_mesh(rng):
+    shape = (rng.randint(1, 9), rng.randint(1, 9))
+    return (shape, (rng.randint(-5, 5), rng.randint(-5, 5)), rng.randint(0, shape[0] - 1), rng.randint(0, shape[1] - 1))
+
+
+SAMPLER.update({'window_slice': _s_window, 'window_slice_noshape': lambda rng: _s_window(rng, 2, False),
+                'window_slice_cube': lambda rng: _s_window(rng, 3), 'mesh_origin': _s_mesh})
+PREF.update({'window_slice': lambda ish, sh, sl: min(ish) >= 1, 'window_slice_noshape': lambda ish, sl: min(ish) >= 1,
+             'window_slice_cube': lambda ish, sh, sl: min(ish) >= 1,
+             'mesh_origin': lambda sh, sf, i, j: min(sh) >= 1 and 0 <= i < sh[0] and 0 <= j < sh[1]})
+
+
+# ====================================================================== C19: fftfreq axis lengths
+def _drv_freq_sizes(modname, fn, nargs):
+    def drv(L, ish):
+        import numpy as np
+        if not (1 <= min(ish) and max(ish) <= 12):
+            return SKIP
+        calls, orig = [], np.fft.fftfreq
+
+        def rec(*a, **k):
+            if sys._getframe(1).f_code.co_name == fn:
+                calls.append(a)
+            return orig(*a, **k)
+        np.fft.fftfreq = rec
+        try:
+            getattr(getattr(L, modname), fn)(np.ones(ish), *([1.0] * nargs))
+        except Exception:      # noqa: BLE001
+            pass
+        finally:
+            np.fft.fftfreq = orig
+        if len(calls) != 2:
+            return SKIP
+        return (int(calls[0][0]), int(calls[1][0]))
+    return drv
+
+
+for _n, _m, _f, _k in (('pixel_freq_sizes', 'detector', 'pixel', 1), ('jitter_freq_sizes', 'convolvable', 'jitter', 1),
+                       ('smear_freq_sizes', 'convolvable', 'smear', 2)):
+    MIRROR[_n] = lambda ish: (ish[1], ish[0])
+    DRIVER[_n] = _drv_freq_sizes(_m, _f, _k)
+    SAMPLER[_n] = lambda rng: ((rng.randint(1, 12), rng.randint(1, 12)),)
+    PREF[_n] = lambda ish: min(ish) >= 1
+
+
 # ====================================================================== the check of one layer (called from extra)
 def lemma_function(lemma, names):
     """the spec name a lemma `src_<name>...` is about (longest match)"""
@@ -4394,7 +4567,15 @@ def src_oracle(c, impl, common):
     args = _detuple(c['args'])
     if c['function'] == 'field_boundary':
         args = (list(args[0]),)
-    want = common.jsonable(MIRROR[c['function']](*args))
+    name = c['function']
+    want = MIRROR[name](*args)
+    if name in PROJECT:                # (what the running code exposes of the value: as in the self-check)
+        want = PROJECT[name](want)
+    if name in PROJECT2:
+        want = PROJECT2[name](want, args)
+    if name in CANON:
+        want = CANON[name](want)
+    want = common.jsonable(want)
     if 'value' not in impl:
         return (f'{c["function"]}{args}: the running function gives {impl}; the translated source gives '
                 f'{c.get("translated_source_value")}, the proved model {want}')
@@ -4412,6 +4593,73 @@ def wrap_replay(run_impl, oracle, common):
     return run_impl2, oracle2
 
 
+def _private_build(suite, su, text, common):
+    """development runs (VERIF_REPO = a scratch copy carrying a mutant or a rewrite) must not touch the generated
+    files of the shared tree - other checks read them concurrently.  The generated file and copies of the Proofs /
+    Properties files of the layer (their imports of the layer's own modules redirected) are compiled in a private
+    directory under their own logical name.  -> (rc, failing file | None, lemma | None, message, assumptions)"""
+    import re
+    import subprocess
+    tag = hashlib.sha1((common.REPO + '|' + suite).encode()).hexdigest()[:10]
+    logical = 'LVD' + tag
+    d = os.path.join(common.COQ, 'devsrc', tag)
+    rel = [su['gen'], su['proofs'], su['target'][:-1]]                     # theories/Gen/X.v, Proofs/XP.v, Properties/CxxSrc.v
+    own = {r[len('theories/'):-2].replace('/', '.') for r in rel}          # Gen.X, Proofs.XP, Properties.CxxSrc
+
+    def redirect(txt):
+        def fix(m):
+            mods = m.group(2).split()
+            mine = [x for x in mods if x in own]
+            rest = [x for x in mods if x not in own]
+            out = ''
+            if rest:
+                out += f'From LV Require {m.group(1)}{" ".join(rest)}.'
+            if mine:
+                out += f'{" " if out else ""}From {logical} Require {m.group(1)}{" ".join(mine)}.'
+            return out
+        return re.sub(r'From\s+LV\s+Require\s+(Import\s+|Export\s+)?(.*?)\.(?=\s|$)', fix, txt, flags=re.S)
+    import shutil
+    rc0, out0 = common.coq_make([su['target']])          # everything the layer needs from the shared tree
+    try:
+        return _private_compile(su, text, common, d, logical, rel, redirect)
+    finally:
+        shutil.rmtree(d, ignore_errors=True)
+
+
+def _private_compile(su, text, common, d, logical, rel, redirect):
+    import re
+    import subprocess
+    files = []
+    for k, r in enumerate(rel):
+        dst = os.path.join(d, r[len('theories/'):])
+        os.makedirs(os.path.dirname(dst), exist_ok=True)
+        txt = text if k == 0 else open(os.path.join(common.COQ, r)).read()
+        open(dst, 'w').write(redirect(txt))
+        files.append(dst)
+    last = ''
+    for k, fpath in enumerate(files):
+        pr = subprocess.run(f'timeout 900 coqc -Q theories LV -Q {d} {logical} {fpath}', shell=True, cwd=common.COQ,
+                            stdout=subprocess.PIPE, stderr=subprocess.STDOUT, text=True)
+        last = pr.stdout
+        if pr.returncode:
+            lemma = None
+            m = re.search(r'line (\d+)', pr.stdout)
+            if m:
+                lines = open(fpath).read().splitlines()
+                for i in range(min(int(m.group(1)), len(lines)) - 1, -1, -1):
+                    mm = re.match(r'\s*(Theorem|Lemma|Example|Definition|Corollary|Fact)\s+(\w+)', lines[i])
+                    if mm:
+                        lemma = mm.group(2)
+                        break
+            return pr.returncode, rel[k], lemma, pr.stdout[-1500:], None
+    src = re.sub(r'\(\*.*?\*\)', '', open(files[2]).read(), flags=re.S)
+    names, closed = common.parse_assumptions(last)
+    pa = {'rc': 0, 'theorems': re.findall(r'^\s*Theorem\s+(\w+)', src, flags=re.M),
+          'printed': re.findall(r'Print\s+Assumptions\s+(\w+)', src), 'axioms': names,
+          'unknown': [n for n in names if not common.axiom_allowed(n)], 'closed': closed}
+    return 0, None, None, '', pa
+
+
 def run_layer(suite, prop_id, tier, rng, common):
     """regenerate Gen/<..>Src.v of the suite from common.REPO, build its Properties file and decide:
     refused functions are only reported; a translated function whose equivalence lemma no longer compiles is a
@@ -4420,7 +4668,12 @@ def run_layer(suite, prop_id, tier, rng, common):
     su = SUITES[suite]
     lentil = common.import_lentil()
     gen_path = os.path.join(common.COQ, su['gen'])
-    res = write(common.REPO, gen_path, lentil=lentil, rng=rng, suite=suite)
+    private = common.REPO != '/repo'
+    if private:
+        res = translate_all(common.REPO, lentil, rng, suite)
+        res['changed'] = None
+    else:
+        res = write(common.REPO, gen_path, lentil=lentil, rng=rng, suite=suite)
     results = res['results']
     translated = [n for n, r in results.items() if r['status'] == 'translated']
     report = {'what': 'source-to-Gallina translation of the integer index arithmetic, proved equal to the model',
@@ -4437,11 +4690,22 @@ def run_layer(suite, prop_id, tier, rng, common):
         violations.append({'case': None, 'impl': None,
                            'what': f'translation layer: forbidden construct in the Coq files of {su["props"]}: {bad}'})
         return {'report': report, 'violations': violations}
-    for _ in range(4):
-        rc, out = common.coq_make([su['target']])
-        if open(gen_path).read() == res['text']:
-            break               # (a concurrent check on another tree may have regenerated the file: build again)
-        write(common.REPO, gen_path, lentil=None, rng=rng, suite=suite)
+    pbuild = None
+    if private:
+        report['private_build'] = True
+        rc, pf, plemma, pmsg, ppa = _private_build(suite, su, res['text'], common)
+        pbuild = (pf, plemma, pmsg, ppa)
+        out = pmsg
+    else:
+        for _ in range(4):
+            rc, out = common.coq_make([su['target']])
+            if open(gen_path).read() == res['text']:
+                break           # (a concurrent check of /repo wrote the same text; anything else: build again)
+            write(common.REPO, gen_path, lentil=None, rng=rng, suite=suite)
+        if open(gen_path).read() != res['text']:
+            report['refused']['<build>'] = 'the generated file kept being rewritten by concurrent checks during the build'
+            report['translated'] = []
+            return {'report': report, 'violations': violations}
     src_p = re.sub(r'\(\*.*?\*\)', '', open(os.path.join(common.COQ, su['proofs'])).read(), flags=re.S)
     lemmas = re.findall(r'^\s*Lemma\s+(src_\w+)', src_p, flags=re.M)
     if rc == 0:
@@ -4452,15 +4716,17 @@ def run_layer(suite, prop_id, tier, rng, common):
         st = os.stat(vo)
         key = [st.st_mtime_ns, st.st_size, st.st_ino]
         cpath = os.path.join(common.COQ, f'.{su["props"]}.assumptions.json')
-        pa = None
+        pa = pbuild[3] if pbuild else None
         try:
+            if pbuild:
+                raise KeyError
             c = json.load(open(cpath))
             if c.get('key') == key:
                 pa = c['pa']
                 report['assumptions_cached'] = True
         except (OSError, ValueError, KeyError):
-            pa = None
-        if pa is None:
+            pa = pbuild[3] if pbuild else None
+        if pa is None and not pbuild:
             pa = common.print_assumptions(su['props'])
             pa = {k: pa[k] for k in ('rc', 'theorems', 'printed', 'axioms', 'unknown', 'closed')}
             st = os.stat(vo)                 # (coqc has just rewritten the .vo from the same sources)
@@ -4480,7 +4746,7 @@ def run_layer(suite, prop_id, tier, rng, common):
             pre = f'{prop_id}_src_'
             report['proved'] = sum(1 for t in pa['theorems'] if lemma_function(t.replace(pre, 'src_'), translated))
         return {'report': report, 'violations': violations}
-    f, lemma, msg = common.first_error(out)
+    f, lemma, msg = (pbuild[0], pbuild[1], pbuild[2]) if pbuild else common.first_error(out)
     fn = lemma_function(lemma, list(results)) if f == su['proofs'] else None
     report['broken'] = {'file': f, 'lemma': lemma, 'function': fn, 'error': (msg or '')[:600]}
     if f == su['proofs'] and lemma in lemmas:
